@@ -378,6 +378,7 @@ def d3_matrices(ctx, idx):
         except Unsupported as e:
             raise AnalysisError('generate_sample: %s' % e)
         facts = ai.Facts().add(ai.SymFact('shape', ai.Interval(1, ai.INF), integer=True))
+        paths = _fold_sentinel_tests(idx, fi, paths)
         items = _resolve_cached_flag(r, idx, fi, paths)
         for cx in (False, True):
             p = _select_items(items, {'complex': cx})
@@ -541,6 +542,38 @@ def _overwritten_options(r, idx):
                                 sub.loc, expected="Required(%r, default=None): None" % key, found=short(val, 60))
 
 
+def _sentinels(idx, module):
+    """Module-level names bound once to `object()`: private marker objects, identical only to themselves."""
+    out = set()
+    for name, vals in module.assigns.items():
+        if len(vals) == 1 and isinstance(vals[0], ast.Call) and isinstance(vals[0].func, ast.Name) and vals[0].func.id == 'object' \
+                and not vals[0].args and not vals[0].keywords:
+            out.add(('ext', module.name + '.' + name))
+    return out
+
+
+def _fold_sentinel_tests(idx, fi, paths):
+    """On the success path of an attempt the array is the result of a method call, never the module's private marker object:
+    `array is not MARKER` holds, `array is MARKER` does not."""
+    marks = _sentinels(idx, fi.module)
+    if not marks:
+        return paths
+    out = []
+    for p in paths:
+        keep, guards = True, []
+        for g, n in p.guards:
+            if g[0] == 'cmp' and g[1] in ('is', 'isnot') and (g[2] in marks or g[3] in marks):
+                other = g[3] if g[2] in marks else g[2]
+                if other[0] in ('meth', 'call') and other not in marks:
+                    if g[1] == 'is':
+                        keep = False
+                    continue
+            guards.append((g, n))
+        if keep:
+            out.append(ai.SPath(guards, p.kind, p.value, p.exc, p.stmt, p.store, p.env, p.effects, p.closures))
+    return out
+
+
 def _select_items(items, asg):
     res = []
     for conds, p in items:
@@ -607,6 +640,24 @@ def _resolve_cached_flag(r, idx, fi, paths):
     return [([rewrite(g, mapping) for g in p.conds], p) for p in paths]
 
 
+def _marker_handler(idx, fi, loop, tr, h):
+    """except Retry: v = MARKER  followed in the loop body by exactly  `if v is not MARKER: return v`."""
+    body = [s for s in h.body if not (isinstance(s, ast.Assign) and all(isinstance(t_, ast.Name) and t_.id.startswith('_sa_') for t_ in s.targets))]
+    if len(body) != 1 or not (isinstance(body[0], ast.Assign) and len(body[0].targets) == 1 and isinstance(body[0].targets[0], ast.Name)
+                              and isinstance(body[0].value, ast.Name)):
+        return False
+    v, marker = body[0].targets[0].id, body[0].value.id
+    if ('ext', fi.module.name + '.' + marker) not in _sentinels(idx, fi.module):
+        return False
+    after = [s for s in loop.body[loop.body.index(tr) + 1:]
+             if not (isinstance(s, ast.Assign) and all(isinstance(t_, ast.Name) and t_.id.startswith('_sa_') for t_ in s.targets))]
+    if len(after) != 1 or not isinstance(after[0], ast.If) or after[0].orelse:
+        return False
+    ok_test = nf.match('%s is not %s' % (v, marker), after[0].test) is not None
+    rets = after[0].body
+    return ok_test and len(rets) == 1 and isinstance(rets[0], ast.Return) and isinstance(rets[0].value, ast.Name) and rets[0].value.id == v
+
+
 def _retry_parts(fi):
     loops = [n for n in walk_own(fi.node) if isinstance(n, (ast.While, ast.For))]
     if len(loops) != 1:
@@ -653,7 +704,8 @@ def _dimension_uses_ok(paths):
         for g in p.conds:
             for c in ai.t_conjuncts(g) if g[0] != 'or' else g[1]:
                 for s in ai.subterms(c):
-                    if s[0] == 'cmp' and ai.mentions(s, d):
+                    if s[0] == 'cmp' and ai.mentions(s, d) and not any(
+                            x is not s and x[0] == 'cmp' and ai.mentions(x, d) for x in ai.subterms(s)):
                         ok = (s[1] in ('==', '!=') and {s[2], s[3]} & {('mod', d, ai.num(2))} and ({s[2], s[3]} & {ai.num(0), ai.num(1)})) \
                             or (s[1] in ('==', '!=') and d in (s[2], s[3]) and ai.num(2) in (s[2], s[3]))
                         if not ok:
@@ -667,7 +719,7 @@ def d4_enum(ctx, idx):
                        'is unreachable; hermitian/antihermitian force complex', floor=4)
     accepted = []
     with r_tab:
-        fi, ctor = _paths(idx, SM + '.__init__')
+        fi, ctor = _paths(idx, SM + '.__init__', self_cls=idx.cls(SM))
         facts = ai.schema_facts(idx, idx.cls(SM), ['symmetry', 'traceless', 'determinant', 'complex', 'dimension'])
         doms = {}
         for k in ('symmetry', 'complex', 'traceless', 'determinant'):
@@ -883,6 +935,10 @@ def d5_retry(ctx, idx):
                 r.ok(construct, 'only Retry', lib.loc(fi, tr.handlers[0]))
         if dispatch is None and tr.handlers and ('Retry' in names or catch_all):
             for h in tr.handlers:
+                if _marker_handler(idx, fi, loop, tr, h):
+                    r.ok(construct + ' body', 'records the failure with a marker object; the code after the try returns only for a real array, so the '
+                         'loop draws again', lib.loc(fi, h))
+                    continue
                 bad = [s for s in h.body if not isinstance(s, (ast.Continue, ast.Pass)) and not (isinstance(s, ast.Expr) and isinstance(s.value, (ast.Constant, ast.Call)))
                        and not (isinstance(s, ast.Assign) and all(isinstance(t_, ast.Name) and t_.id.startswith('_sa_') for t_ in s.targets))]
                 if any(isinstance(s, (ast.Return, ast.Break)) for s in bad):
